@@ -11,6 +11,7 @@ import (
 	"path/filepath"
 	"sort"
 	"strings"
+	"sync"
 	"time"
 
 	"verif/engine/gosym"
@@ -223,6 +224,12 @@ func (c *Check) Run(sel []HarnessDef) int {
 		cfg.SecondCheck = tc.Second
 		cfg.NoopPkgs = append(append([]string{}, gosym.DefaultNoop...), h.Noop...)
 		cfg.Stubs = h.Stubs
+		if len(h.NoopFuncs) > 0 {
+			cfg.NoopFuncs = map[string]bool{}
+			for _, f := range h.NoopFuncs {
+				cfg.NoopFuncs[f] = true
+			}
+		}
 		cfg.Summaries = h.Summaries
 		ex := &gosym.Explorer{Prog: ld.Prog, Cfg: cfg, H: &gosym.Harness{Name: h.Name, Pkg: pkg, Entry: fn}}
 		hr.ex = ex
@@ -456,47 +463,70 @@ func (c *Check) runNativeReplays(runs []*harnessRun, overlay map[string][]byte) 
 	os.WriteFile(ovPath, ovData, 0o644)
 
 	for pkg, hrs := range byPkg {
-		list := filepath.Join(tmp, "list-"+strings.ReplaceAll(pkg, "/", "_"))
-		out := filepath.Join(tmp, "out-"+strings.ReplaceAll(pkg, "/", "_"))
-		var paths []string
-		for _, hr := range hrs {
-			for _, rc := range hr.replays {
-				paths = append(paths, rc.path)
-			}
-		}
-		os.WriteFile(list, []byte(strings.Join(paths, "\n")), 0o644)
-		cmd := exec.Command("go", "test", "-tags=verif", "-vet=off", "-count=1", "-timeout=10m", "-run", "^TestVerifReplay$", "-overlay", ovPath, "./"+pkg)
+		tag := strings.ReplaceAll(pkg, "/", "_")
+		bin := filepath.Join(tmp, tag+".test")
+		cmd := exec.Command("go", "test", "-c", "-o", bin, "-tags=verif", "-vet=off", "-overlay", ovPath, "./"+pkg)
 		cmd.Dir = repoDir
-		cmd.Env = append(os.Environ(), "GOFLAGS=-mod=mod", "GOPROXY=off", "VERIF_REPLAY_LIST="+list, "VERIF_REPLAY_OUT="+out)
+		cmd.Env = append(os.Environ(), "GOFLAGS=-mod=mod", "GOPROXY=off")
 		t0 := time.Now()
 		outp, err := cmd.CombinedOutput()
-		c.logf("native replay %s: %d files in %.1fs err=%v", pkg, len(paths), time.Since(t0).Seconds(), err)
-		data, rerr := os.ReadFile(out)
-		if rerr != nil {
+		if err != nil {
 			for _, hr := range hrs {
-				hr.mismatch = append(hr.mismatch, "native replay produced no output: "+firstLines(string(outp), 15))
+				hr.mismatch = append(hr.mismatch, "native replay binary did not build: "+firstLines(string(outp), 15))
 			}
 			continue
 		}
-		res := map[string]*nativeResult{}
-		for _, line := range bytes.Split(data, []byte("\n")) {
-			if len(bytes.TrimSpace(line)) == 0 {
-				continue
-			}
-			var nr nativeResult
-			if json.Unmarshal(line, &nr) == nil {
-				res[nr.File] = &nr
-			}
-		}
+		var cases []*replayCase
 		for _, hr := range hrs {
-			for _, rc := range hr.replays {
-				rc.native = res[rc.path]
-				if rc.native == nil && err != nil {
-					// the test binary died (e.g. unrecovered panic in another goroutine or fatal error)
-					rc.native = &nativeResult{File: rc.path, Kind: "crash", Msg: firstLines(string(outp), 15)}
-				}
-			}
+			cases = append(cases, hr.replays...)
 		}
+		// one process per replay file: a crash or hang of the real code only affects that replay
+		sem := make(chan struct{}, 8)
+		var wg sync.WaitGroup
+		for k, rc := range cases {
+			wg.Add(1)
+			sem <- struct{}{}
+			go func(k int, rc *replayCase) {
+				defer wg.Done()
+				defer func() { <-sem }()
+				list := filepath.Join(tmp, fmt.Sprintf("list-%s-%d", tag, k))
+				out := filepath.Join(tmp, fmt.Sprintf("out-%s-%d", tag, k))
+				os.WriteFile(list, []byte(rc.path), 0o644)
+				run := exec.Command(bin, "-test.run", "^TestVerifReplay$", "-test.timeout", "60s")
+				run.Dir = filepath.Join(repoDir, pkg)
+				run.Env = append(os.Environ(), "VERIF_REPLAY_LIST="+list, "VERIF_REPLAY_OUT="+out)
+				ro, rerr := run.CombinedOutput()
+				var nr *nativeResult
+				if data, e := os.ReadFile(out); e == nil {
+					for _, line := range bytes.Split(data, []byte("\n")) {
+						if len(bytes.TrimSpace(line)) == 0 {
+							continue
+						}
+						var x nativeResult
+						if json.Unmarshal(line, &x) == nil {
+							nr = &x
+						}
+					}
+				}
+				if nr == nil || rerr != nil {
+					// the process died: an assertion may have been reported before it did
+					label := ""
+					for _, line := range strings.Split(string(ro), "\n") {
+						if strings.HasPrefix(line, "VERIF-VIOLATION ") && label == "" {
+							label = strings.TrimSpace(strings.TrimPrefix(line, "VERIF-VIOLATION "))
+						}
+					}
+					if label != "" {
+						nr = &nativeResult{File: rc.path, Kind: "violation", Label: label, Msg: "process ended after the assertion failed"}
+					} else if nr == nil {
+						nr = &nativeResult{File: rc.path, Kind: "crash", Msg: firstLines(string(ro), 12)}
+					}
+				}
+				rc.native = nr
+			}(k, rc)
+		}
+		wg.Wait()
+		c.logf("native replay %s: %d files in %.1fs", pkg, len(cases), time.Since(t0).Seconds())
 	}
 	return nil
 }
